@@ -202,9 +202,43 @@ def handle (j : Json) : M Json := do
       pure (Json.mkObj [("reduced", polyJ (Poly.reduce p r c))])
   | "classify" => do
       let p ← parsePoly (← fld j "p")
-      let pts ← (← fldArr j "pts").toList.mapM parseInts
-      pure (Json.mkObj [("sat", boolsJ (pts.map (Poly.satisfied p))), ("sep", boolsJ (pts.map (Poly.separable p))),
-                        ("rowsep", boolsJ (Poly.ineqSep p pts))])
+      let d ← fldInt j "d"
+      let pj ← fld j "pts"
+      let pts : Poly.Points ← match d with
+        | 1 => do pure (Poly.Points.d1 (← parseInts pj))
+        | 2 => do pure (Poly.Points.d2 (← (← jArr pj).toList.mapM parseInts))
+        | 3 => do pure (Poly.Points.d3 (← (← jArr pj).toList.mapM (fun m => do (← jArr m).toList.mapM parseInts)))
+        | _ => throw "bad points dimension"
+      let outJ : Poly.Out → Json := fun o => match o with
+        | .b v => Json.bool v
+        | .v l => Json.arr (l.map Json.bool).toArray
+        | .m l => Json.arr (l.map (fun r => Json.arr (r.map Json.bool).toArray)).toArray
+      pure (Json.mkObj [("sat", outJ (Poly.ineqsSatisfied p pts)), ("sep", outJ (Poly.separableP p pts)),
+                        ("rowsep", outJ (Poly.ineqSeparatePoints p pts))])
+  | "bridge" => do
+      let vars ← (← fldArr j "vars").toList.mapM parseIdBnd
+      let dict ← (← fldArr j "dict").toList.mapM (fun x => do
+        let a ← jArr x
+        if a.size != 2 then throw "bad dict entry"
+        pure (← jStr a[0]!, ← jInt a[1]!))
+      let dj ← fld j "dflt"
+      let d : Bridge.Dflt ← match dj with
+        | .str "lower" => pure Bridge.Dflt.lower
+        | .str "nan" => pure Bridge.Dflt.nan
+        | .str "upper" => pure Bridge.Dflt.upper
+        | o => do pure (Bridge.Dflt.const (← fldInt o "const"))
+      let strs : String → M (List String) := fun k => do (← fldArr j k).toList.mapM jStr
+      let lst ← strs "lst"; let ctx ← strs "ctx"
+      let vec ← parseInts (← fld j "vec")
+      let bnds := vars.map (·.2)
+      let nats : List Nat → Json := fun l => Json.arr (l.map (fun (n : Nat) => ofInt (Int.ofNat n))).toArray
+      let row ← parseInts (← fld j "row")
+      let (b0, a0) := Bridge.splitRow row
+      pure (Json.mkObj [("construct", optsJ (Bridge.construct vars dict d)),
+                        ("flb", intsJ (Bridge.fromListBool lst ctx)), ("fli", intsJ (Bridge.fromListInt lst ctx)),
+                        ("tolist", Json.arr ((Bridge.toList vec (vars.map (·.1))).map Json.str).toArray),
+                        ("boolidx", nats (Bridge.boolIdx bnds)), ("intidx", nats (Bridge.intIdx bnds)),
+                        ("b", ofInt b0), ("a", intsJ a0)])
   | _ => throw "bad-op"
 
 partial def loop (h : IO.FS.Stream) (out : IO.FS.Stream) : IO Unit := do
